@@ -61,11 +61,34 @@ def svc_xml(v):
     return "<protocol><%s><port>%s</port>%s</%s></protocol>" % (proto, port, spx, proto)
 
 
+def norm(cfg):
+    """an empty TLA+ function arrives as an empty JSON array (also inside the nested second vsys)"""
+    for k in ("addrs", "groups", "svcs", "sgroups"):
+        if cfg.get(k) == []:
+            cfg[k] = {}
+    if "v2" in cfg:
+        norm(cfg["v2"])
+    return cfg
+
+
 def render(cfg, dev):
+    norm(cfg)
     out = ['<config><devices><entry name="localhost.localdomain">']
     if dev:
         out.append("<deviceconfig><system><hostname>router</hostname></system></deviceconfig>")
-    out.append('<vsys><entry name="vsys1">')
+    out.append("<vsys>")
+    out += render_vsys("vsys1", cfg, dev)
+    if "v2" in cfg:
+        out += render_vsys("vsys2", cfg["v2"], dev)
+    if dev and cfg.get("vsys2"):
+        out.append('<entry name="vsys2"><display-name>other</display-name><address>'
+                   '<entry name="IP_10.1.1.1"><ip-netmask>10.7.7.7/32</ip-netmask></entry></address></entry>')
+    out.append("</vsys></entry></devices></config>")
+    return "\n".join(out) + "\n"
+
+
+def render_vsys(name, cfg, dev):
+    out = ['<entry name="%s">' % name]
     if dev:
         out.append("<display-name>FW-managed-by-Netspoc</display-name>")
     out.append("<rulebase><security><rules>")
@@ -80,11 +103,7 @@ def render(cfg, dev):
     out.append("<service-group>" + "".join('<entry name="%s"><members>%s</members></entry>' % (n, members(sorted(ms), sname))
                                            for n, ms in sorted(cfg["sgroups"].items())) + "</service-group>")
     out.append("</entry>")
-    if dev and cfg.get("vsys2"):
-        out.append('<entry name="vsys2"><display-name>other</display-name><address>'
-                   '<entry name="IP_10.1.1.1"><ip-netmask>10.7.7.7/32</ip-netmask></entry></address></entry>')
-    out.append("</vsys></entry></devices></config>")
-    return "\n".join(out) + "\n"
+    return out
 
 
 # ------------------------------------------------------------------ cmdparse
@@ -213,23 +232,62 @@ def parse_cmd(line):
 
 
 def parse_script(text):
-    return [parse_cmd(ln) for ln in text.split("\n") if ln.strip()]
+    """commands in order; a `Switch` event marks where the script turns to another vsys"""
+    evs, cur = [], "vsys1"
+    for ln in text.split("\n"):
+        if not ln.strip():
+            continue
+        e = parse_cmd(ln)
+        if e["vsys"] != cur:
+            cur = e["vsys"]
+            evs.append({"ev": "Switch", "vsys": cur, "half": 0})
+        evs.append(e)
+    return evs
 
 
 # ------------------------------------------------------------------ replica of Panos.tla
 
 class Replica:
+    """vsys1 (and vsys2 if the configuration has one); `Switch` selects the vsys later events address"""
+
+    def __init__(self, cfg):
+        c = norm(copy.deepcopy(cfg))
+        self.vs = {"vsys1": Vsys(c)}
+        if "v2" in c:
+            self.vs["vsys2"] = Vsys(c["v2"])
+        self.cur = "vsys1"
+        self.vsys2 = c.get("vsys2", False)
+
+    def state(self):
+        st = self.vs["vsys1"].state()
+        st["vsys2"] = self.vsys2
+        if "vsys2" in self.vs:
+            st["v2"] = self.vs["vsys2"].state()
+        return st
+
+    def apply(self, e):
+        if e["ev"] == "Switch":
+            self.cur = e["vsys"]
+            # a vsys the configuration does not have: commands land in an empty candidate (and are flagged by C07)
+            self.vs.setdefault(self.cur, Vsys({"rules": [], "addrs": {}, "svcs": {}, "groups": {}, "sgroups": {}}))
+            return
+        if e["ev"] == "Resume":
+            self.cur = "vsys1"
+            return
+        self.vs[self.cur].apply(e)
+
+
+class Vsys:
     def __init__(self, cfg):
         c = copy.deepcopy(cfg)
         self.rules = [dict(r, src=sorted(r["src"]), dst=sorted(r["dst"]), svc=sorted(r["svc"])) for r in c["rules"]]
         self.addrs, self.svcs = c["addrs"], c["svcs"]
         self.groups = {n: sorted(m) for n, m in c["groups"].items()}
         self.sgroups = {n: sorted(m) for n, m in c["sgroups"].items()}
-        self.vsys2 = c.get("vsys2", False)
 
     def state(self):
         return {"rules": copy.deepcopy(self.rules), "addrs": dict(self.addrs), "svcs": dict(self.svcs),
-                "groups": copy.deepcopy(self.groups), "sgroups": copy.deepcopy(self.sgroups), "vsys2": self.vsys2}
+                "groups": copy.deepcopy(self.groups), "sgroups": copy.deepcopy(self.sgroups)}
 
     def rule(self, n):
         for r in self.rules:
